@@ -142,6 +142,14 @@ def record(ck, n_grid, n_float):
                  "eps": float([1e-10, 1e-6][rs.randint(2)]),
                  "beta2": float([1.0, 0.999, 0.9, 0.5, 0.99][rs.randint(5)]),
                  "scale": float(10.0 ** rs.randint(-4, 4))})
+  # low-precision parameters, long histories: the second-moment recursion must not lose increments once
+  # an accumulator is 2^8 (bfloat16) / 2^11 (float16) times larger than the incoming squared gradient
+  for i in range(max(4, n_float // 15)):
+    sh = [(5,), (2, 3), (3, 2, 2), (4, 2)][i % 4]
+    jobs.append({"kind": "float", "shape": list(sh), "T": int([300, 600][i % 2] if i % 3 else 2600),
+                 "seed": int(rs.randint(1 << 30)), "lr": 0.1, "beta1": 0.0, "wd": 0.0, "normalize": False,
+                 "eps": 1e-10, "beta2": float([1.0, 1.0, 0.75, 0.5][(i // 2) % 4]), "scale": 1.0, "pow2": True,
+                 "pdtype": ["bfloat16", "float16"][(i // 3) % 2 if i % 3 == 0 else 0]})
   res = core.run_workers("harness.workers.sm3_trace", jobs, work=ck.work)
   traces = []
   for j, r in zip(jobs, res):
